@@ -312,9 +312,21 @@ def classify_c06(rec):
     sql = rec.get("sql") or ""
     txt = fail_text(rec) if rec["tag"] != "rows" else ""
     has_let = bool(re.search(r"(?m)^\s*(?:let r_\d+ = \(|into r_\d+)", prql))
-    if "module-siblings" in lab and rec["tag"] == "compile-err" and re.search(r"expected a function, but found `[\w.]*\bfn_\d+`", txt) \
-            and re.search(r"(?s)module m_\d+ \{.*let fn_\d+ = .*let fn_\d+ = ", prql):
-        return "F60b-module-sibling-function-ref"
+    if "module-siblings" in lab and rec["tag"] == "compile-err":
+        # the inner function's name reaches the CALL SITE's scope: an inferred column of a wildcard table, an unknown name in a
+        # closed frame, or ambiguous between two wildcard tables -- always the name of a function declared in the module
+        errs = (rec.get("compile") or {}).get("err", [])
+        names = set()
+        for e in errs:
+            r_ = str(e.get("reason"))
+            mm = re.search(r"expected a function, but found `[\w.]*\b(fn_\d+)`", r_) or re.fullmatch(r"Unknown name `(fn_\d+)`", r_)
+            if mm:
+                names.add(mm.group(1))
+            elif r_ == "Ambiguous name":
+                names |= set(re.findall(r"\b\w+\.(fn_\d+)\b", " ".join(str(h) for h in e.get("hints") or [])))
+        mods = re.findall(r"(?s)module m_\d+ \{\n(.*?)\n\}", prql)
+        if names and any(len(re.findall(r"(?m)^\s*let fn_\d+ = ", body)) >= 2 and all(re.search(r"(?m)^\s*let %s = " % n, body) for n in names) for body in mods):
+            return "F60b-module-sibling-function-ref"
     if "trfunc-pointfree" in lab and rec["tag"] == "sql-err" and re.search(r"no such column: pa_\d+", txt):
         return "F61-pointfree-transform-param"
     if "trfunc-pointfree" in lab and rec["tag"] == "panic" and "bad special function cast" in txt and "transforms.rs" in txt:
@@ -465,7 +477,7 @@ def beta_stream(ck, cases):
 
 # ------------------------------------------------------------------------------ main
 
-def gen_batch(ck, rng, n_base, n_two, n_dir, site_hist, n_sorted=60, n_known=6):
+def gen_batch(ck, rng, n_base, n_two, n_dir, site_hist, n_sorted=60, n_known=3):
     """base programs with all their rewritten variants"""
     cases = []
     g = W.RGen(rng, max_steps=6)
